@@ -202,6 +202,8 @@ def gen_python(rng, bad_p=0.1):
     return src
 
 
+SLICE_PREFIXES = ['x\n', '(\n', 'if a:\n    ', 'abc ', '\n\n  ', ')', '?', 'a\n  b\n    ']
+SLICE_SUFFIXES = ['', '', '\nz', ')', '  q\n', '\n        deep\n', '?']
 ENDINGS = ['full', 'full', 'full', 'full', 'abandon', 'hold', 'close', 'throw', 'parse']
 
 
@@ -237,6 +239,11 @@ class C18(Check):
         self.py_ind = PythonIndenter()
         self.py_basic = Lark.open_from_package('lark', 'python.lark', ['grammars'], parser='lalr', lexer='basic', postlex=self.py_ind, start='file_input')
         self.py_ctx = Lark.open_from_package('lark', 'python.lark', ['grammars'], parser='lalr', postlex=self.py_ind, start='file_input')
+        # the parse-mode oracle: instances of their own whose Indenter is re-initialised before every single use
+        self.py_oracle_ind = PythonIndenter()
+        self.py_oracle = Lark.open_from_package('lark', 'python.lark', ['grammars'], parser='lalr', postlex=self.py_oracle_ind, start='file_input')
+        self.tree_oracle_ind = W.make_postlex('tree')
+        self.tree_oracle = {lx: Lark(W.G_IND, parser='lalr', lexer=lx, postlex=self.tree_oracle_ind) for lx in ('contextual', 'basic')}
 
     # ------------------------------------------------------------------ plan
     def gen_plan(self, rng, tier):
@@ -254,10 +261,40 @@ class C18(Check):
                 streams.append({'text': gen_tree_text(rng), 'end': end, 'k': rng.randint(0, 20)})
             else:
                 streams.append({'text': gen_python(rng), 'end': end, 'k': rng.randint(0, 30)})
+            if driver != 'direct' and rng.random() < 0.25:
+                # the source is handed over as a TextSlice of a larger text: a stream of its own all the same
+                streams[-1]['slice'] = [rng.choice(SLICE_PREFIXES), rng.choice(SLICE_SUFFIXES)]
         return {'driver': driver, 'lexer': rng.choice(['contextual', 'basic']), 'streams': streams, 'tab_len': rng.choice([8, 8, 4, 1]),
                 'indenter_class': rng.choice([None, None, 'brace', 'paren'])}
 
     # ------------------------------------------------------------------ execution
+    @staticmethod
+    def _inp(st):
+        """what is handed to lark for this stream: the text, or a TextSlice of a larger text that selects exactly it"""
+        sl = st.get('slice')
+        if not sl:
+            return st['text']
+        from lark.utils import TextSlice
+        return TextSlice(sl[0] + st['text'] + sl[1], len(sl[0]), len(sl[0]) + len(st['text']))
+
+    @staticmethod
+    def _parse_outcome(pp, inp):
+        from lark.indenter import DedentError
+        from lark.exceptions import UnexpectedInput
+        from sim import canon
+        try:
+            return 'parsed', canon.canon(pp.parse(inp))
+        except DedentError as e:
+            return 'dedent-error', str(e)
+        except UnexpectedInput as e:
+            tok = getattr(e, 'token', None)
+            return 'parse-error', [type(e).__name__, getattr(e, 'pos_in_stream', None), getattr(e, 'line', None), getattr(e, 'column', None),
+                                   [tok.type, str(tok)] if tok is not None else None, sorted(getattr(e, 'accepts', None) or getattr(e, 'allowed', None) or [])]
+        except AssertionError:
+            return 'unmatched-close', None
+        except IndexError:
+            return 'index-error', None
+
     def _raw(self, plain, text):
         """the token stream the Indenter is fed, from an instance without post-lexer; (tokens, lexer error position or None)"""
         from lark.exceptions import UnexpectedCharacters
@@ -325,7 +362,10 @@ class C18(Check):
             if driver == 'direct':
                 raw = [(ty, v, (i * 3, 1 + i // 5, 1 + i % 5, i * 3 + len(v), 1 + i // 5, 1 + i % 5 + len(v))) for i, (ty, v) in enumerate(st['tokens'])]
             else:
-                raw, lexerr = self._raw(plain, st['text'])
+                inp = self._inp(st)
+                if st.get('slice'):
+                    out.count('input:text-slice')
+                raw, lexerr = self._raw(plain, inp)
             want, status = model(raw, **names)
             n_eof = 0
             if isinstance(status, tuple):
@@ -336,17 +376,11 @@ class C18(Check):
             if end == 'parse' and driver != 'direct':
                 # the consumer is the parser: it may stop the stream with an error at any token
                 pp = p if driver == 'lark' else self.py_ctx
-                try:
-                    pp.parse(st['text'])
-                    outcome = 'parsed'
-                except DedentError:
-                    outcome = 'dedent-error'
-                except UnexpectedInput as e:
-                    outcome = 'parse-error'
-                except AssertionError:
-                    outcome = 'unmatched-close'
-                except IndexError:
-                    outcome = 'index-error'
+                outcome, result = self._parse_outcome(pp, inp)
+                # the same parse by an instance whose Indenter has just been initialised: this stream alone
+                oracle, oind = (self.tree_oracle[plan['lexer']], self.tree_oracle_ind) if driver == 'lark' else (self.py_oracle, self.py_oracle_ind)
+                oind.__init__()
+                want_parse = self._parse_outcome(oracle, inp)
                 out.count('ending:parse/' + outcome)
                 if outcome == 'index-error':
                     fail('tokens-differ(%s)' % _pred(abnormal_before), si, got_outcome='IndexError from parse()', model_outcome=status, text=st['text'])
@@ -357,15 +391,20 @@ class C18(Check):
                 if outcome == 'parsed' and status != 'ok':
                     fail('dedent-error-mismatch', si, got='parsed', model=status, text=st['text'])
                     break
+                if [outcome, result] != list(want_parse):
+                    fail('parse-differs-from-fresh-indenter(%s)' % _pred(abnormal_before), si, got=[outcome, result], want=list(want_parse), text=st['text'], slice=st.get('slice'))
+                    break
                 if outcome != 'parsed':
                     abnormal_before = True
+                elif abnormal_before:
+                    nontrivial = True
                 log.append([si, 'parse', outcome])
                 continue
             if driver == 'direct':
                 toks = [Token(ty, v, pos[0], pos[1], pos[2], pos[4], pos[5], pos[3]) for ty, v, pos in raw]
                 gen = ind.process(iter(toks))
             else:
-                gen = self._lex_stream(p if driver == 'lark' else self.py_basic, st['text'])
+                gen = self._lex_stream(p if driver == 'lark' else self.py_basic, inp)
             limit = None if end in ('full', 'parse') else k
             try:
                 n = 0
